@@ -139,6 +139,11 @@ def templates(uni: qgen.Universe, rng: random.Random) -> List[T]:
         add(f"ds.Select(lambda e: {C}.Where(lambda j: j.pt() > {th} and j.isGood()).First().{meth}())", ["first", "where", "and"])
         add(f"ds.Select(lambda e: {C}.Select(lambda j: j.{meth}()).First())", ["first"])
         add(f"ds.Select(lambda e: {C}.Select(lambda j: j.{meth}()).Where(lambda x: x > {th}).First())", ["first", "where"])
+        # First of a sequence whose element value is itself a First (of the element's own numbers, of another collection): every
+        # outer element runs its inner First, the outer one captures the first element's
+        add(f"ds.Select(lambda e: {C}.Select(lambda j: j.vals().First()).First())", ["first", "first_of_first"])
+        add(f"ds.Select(lambda e: {C}.Select(lambda j: j.vals().First() * 2).First())", ["first", "first_of_first"])
+        add(f"ds.Select(lambda e: {C}.Where(lambda j: j.pt() > {th}).Select(lambda j: {O}.First().{meth}() + j.{meth}()).First())", ["first", "first_of_first", "where"], u2)
         # First of the whole collection as an object, used twice
         add(f"ds.Select(lambda e: {C}.First()).Select(lambda f: f.pt() + f.eta())", ["first", "shared"])
         add(f'ds.Select(lambda e: ({C}.First().pt(), {C}.Count()))', ["first"])
